@@ -101,17 +101,32 @@ func (c *Config) Proxy(closing chan bool, cc io.ReadWriter, url *url.URL) error 
 	}
 	sToC.processors = cToS.processors
 
+	// The session is over as soon as either direction ends or the proxy is closing; `done` tells
+	// the other direction to stop instead of waiting for its own endpoint to go away.
+	done := make(chan bool)
+	var once sync.Once
+	stop := func() { once.Do(func() { close(done) }) }
+	go func() {
+		select {
+		case <-closing:
+			stop()
+		case <-done:
+		}
+	}()
+
 	var wg sync.WaitGroup
 	wg.Add(2)
 	go func() { // Forwards frames from client to server.
 		defer wg.Done()
-		if err := cToS.relayFrames(closing); err != nil {
+		defer stop()
+		if err := cToS.relayFrames(done); err != nil {
 			log.Errorf("relaying frame from client to %v: %v", url, err)
 		}
 	}()
 	go func() { // Forwards frames from server to client.
 		defer wg.Done()
-		if err := sToC.relayFrames(closing); err != nil {
+		defer stop()
+		if err := sToC.relayFrames(done); err != nil {
 			log.Errorf("relaying frame from %v to client: %v", url, err)
 		}
 	}()
